@@ -67,6 +67,8 @@ def generate(rs: int, tier: str, index: int) -> dict:
         step["mutate"] = True  # history on the same object: query, overwrite the coefficients in place, query again
     if ch.chance(0.25):
         step["scribble"] = True
+    if ch.sub("abort").chance(0.15):
+        step["abort_first"] = ch.sub("abort").below(100000)  # the same query was made before and aborted part-way
     if kindc == "float" and kind in ("decompose", "lead", "queries") and size and ch.chance(0.2):
         # an overflowed coefficient: infinities are legal values
         t = ch.below(len(lit["coefficients"]))
@@ -153,6 +155,10 @@ class Runner:
                             for c in p.coefficients:
                                 numpy.asarray(c)[...] = 7
                             self.bump("probe:accessor_results_scribbled")
+                        if step.get("abort_first") is not None:
+                            nviol, nev = len(self.violations), len(self.events)
+                            seams.interrupted_first(lambda: self.check(kind, step, p, names, els, nv, g, r, tag, numpoly), NUMPOLY_DIR, step["abort_first"], self.stats)
+                            del self.violations[nviol:], self.events[nev:]
                         fp = self.check(kind, step, p, names, els, nv, g, r, tag, numpoly)
                         if step.get("mutate") and p.size:
                             # the same object again, after its coefficients were overwritten in place
@@ -403,7 +409,8 @@ def simplify(plan: dict):
         for env in plan["envs"][1:]:
             yield dict(plan, envs=[plan["envs"][0], env])
     step = plan["steps"][0]
-    if step.get("options"):
-        yield dict(plan, steps=[{k: v for k, v in step.items() if k != "options"}])
+    for key in ("options", "abort_first", "scribble", "primer", "mutate"):
+        if step.get(key) is not None and step.get(key) is not False:
+            yield dict(plan, steps=[{k: v for k, v in step.items() if k != key}])
     for lit in model.lit_shrinks(step["p"]):
         yield dict(plan, steps=[dict(step, p=lit)])
